@@ -58,6 +58,7 @@ type Cache[K comparable, V any] struct {
 	closeCh      chan struct{}
 	closeOnce    sync.Once
 	closed       atomic.Bool
+	finalized    atomic.Bool // Close has begun clearing the shards: nothing is applied any more
 	workers      sync.WaitGroup
 	waiterPool   sync.Pool
 	hasher       keyhash.Hasher[K]
@@ -423,6 +424,7 @@ func (c *Cache[K, V]) Close() error {
 		verifYield(341)
 		c.workers.Wait()
 		verifYield(343)
+		c.finalized.Store(true)
 		c.clearDirect()
 	})
 	return nil
